@@ -13,6 +13,7 @@ import (
 	"encoding/json"
 	"fmt"
 	"math/rand"
+	"net/netip"
 	"os"
 	"os/exec"
 	"path/filepath"
@@ -567,6 +568,7 @@ func run(c *vf.Ctx) {
 		}
 		c.Distinct(fmt.Sprintf("%d:%s", n, classVec(f, r)))
 	}
+	events = append(events, tableRoutes(c, rng)...)
 	rejectAt, inv, tres, err := c.TraceCheck("SwitchLabel_Trace", "SwitchLabel_Trace.cfg", events, vf.TLCOpts{Timeout: 30 * time.Minute, Heap: "8g"})
 	if err != nil {
 		c.Fatal("T: %v", err)
@@ -580,6 +582,54 @@ func run(c *vf.Ctx) {
 	}
 	c.Logf("T: %d events validated", len(events))
 	suite(c)
+}
+
+// tableRoutes: switch paths as the router keeps them - inside routing table entries. Routes are added, re-learnt with
+// other labels (a link that came back with another label), with wider or narrower labels, over the same relays; after
+// every AddRoute each entry of the table is written down as a "build" event: its blocks must be the blocks of ITS hops.
+func tableRoutes(c *vf.Ctx, rng *rand.Rand) (events []any) {
+	me := netip.MustParseAddr("fd10::100")
+	addr := func(i int) netip.Addr { return netip.MustParseAddr(fmt.Sprintf("fd10::%x", i)) }
+	label := func() m.SwitchLabel {
+		switch rng.Intn(3) {
+		case 0:
+			return m.SwitchLabel(1 + rng.Intn(127))
+		case 1:
+			return m.SwitchLabel(128 + rng.Intn(16256))
+		}
+		return m.SwitchLabel(16384 + rng.Intn(40000))
+	}
+	for round := 0; round < c.Pick(40, 600); round++ {
+		rt := m.NewRoutingTable(m.RoutingTableConfig{RoutablePrefixes: []m.RoutablePrefix{{BasePrefix: m.RoutingAddressPrefix, RoutingBits: m.ContinentPrefixBits, EntryTTL: time.Hour, EntriesPerPrefix: 50}}, RouterIP: me})
+		for op := 0; op < 12; op++ {
+			dst := 1 + rng.Intn(3)
+			nrel := 1 + rng.Intn(3)
+			hops := []m.SwitchHop{{Router: me, ForwardLabel: label()}}
+			for k := 0; k < nrel; k++ {
+				hops = append(hops, m.SwitchHop{Router: addr(10 + (dst+k)%4), ForwardLabel: label(), ReturnLabel: label()})
+			}
+			hops = append(hops, m.SwitchHop{Router: addr(dst), ReturnLabel: label()})
+			e := m.RoutingTableEntry{DstIP: addr(dst), NextHop: hops[1].Router, Source: m.RouteSourceGossip, Expires: time.Now().Add(time.Hour), Path: m.SwitchPath{Hops: hops}}
+			if rng.Intn(5) == 0 {
+				e = m.RoutingTableEntry{DstIP: addr(dst), NextHop: addr(dst), Source: m.RouteSourcePeer, Path: m.SwitchPath{Hops: []m.SwitchHop{{Router: me, ForwardLabel: label()}, {Router: addr(dst), ReturnLabel: label()}}}}
+			}
+			_, _ = rt.AddRoute(e)
+			c.Eval(1)
+			for _, x := range rt.VerifEntries() {
+				if len(x.Path.Hops) < 2 {
+					continue
+				}
+				var f, r []int
+				for _, h := range x.Path.Hops {
+					f = append(f, int(h.ForwardLabel))
+					r = append(r, int(h.ReturnLabel))
+				}
+				events = append(events, map[string]any{"ev": "build", "n": len(f), "f": f, "r": r, "err": false, "fwd": toInts(x.Path.ForwardBlock), "ret": toInts(x.Path.ReturnBlock), "where": "routing table entry"})
+			}
+		}
+		c.Distinct(fmt.Sprintf("table-routes|%d", round))
+	}
+	return events
 }
 
 // suite is stage S: the traces are not made by this driver but recorded from the repository's OWN test suite. The
